@@ -148,8 +148,14 @@ def _run_one(pid, spec, idx, workdir, root):
     timeout = spec.get('timeout', 600)
     t0 = time.time()
     out = dict(spec=spec, idx=idx)
+    cmd = [PY, '-m', 'vmon', 'shard', pid, specfile, outfile]
+    if variant == 'vg':
+        # memcheck sees what ASan cannot: reads of uninitialised memory
+        cmd = ['valgrind', '--tool=memcheck', '--error-limit=no',
+               '--num-callers=30', '--read-var-info=no',
+               '--log-file=' + os.path.join(sdir, 'vg.%p.log')] + cmd
     try:
-        p = subprocess.run([PY, '-m', 'vmon', 'shard', pid, specfile, outfile],
+        p = subprocess.run(cmd,
                            env=env, cwd=VERIF, capture_output=True,
                            timeout=timeout)
         out['rc'] = p.returncode
@@ -168,11 +174,63 @@ def _run_one(pid, spec, idx, workdir, root):
         if fn.startswith(('asan.', 'ubsan.')):
             with open(os.path.join(sdir, fn), errors='replace') as fh:
                 reports.append(fh.read()[:6000])
+    if variant == 'vg':
+        nvg = 0
+        for fn in sorted(os.listdir(sdir)):
+            if fn.startswith('vg.') and fn.endswith('.log'):
+                nvg += 1
+                with open(os.path.join(sdir, fn), errors='replace') as fh:
+                    own, foreign = valgrind_errors(fh.read())
+                reports += own[:5]
+                out['vg_foreign'] = out.get('vg_foreign', 0) + foreign
+        out['vg_logs'] = nvg
     out['sanitizer_reports'] = reports
     jp = os.path.join(sdir, 'journal.txt')
     if os.path.exists(jp):
         out['journal'] = open(jp, errors='replace').read()[-4000:]
     return out
+
+
+_VG_ERR = ('Invalid read', 'Invalid write', 'Conditional jump or move',
+           'Use of uninitialised', 'Invalid free', 'Mismatched free',
+           'Source and destination overlap', 'Syscall param',
+           'Argument ', 'Jump to the invalid address',
+           'Process terminating')
+_VG_OURS = ('/BTrees/_', 'Template.c:', 'sorters.c:', 'BTree.c:',
+            'macros.h:')
+
+
+def valgrind_errors(text):
+    """-> (error blocks with a frame inside the BTrees extension modules,
+    number of other error blocks).  Only the former count: CPython and libc
+    are not ours to judge (with PYTHONMALLOC=malloc they are silent here)."""
+    own, foreign = [], 0
+    block = []
+
+    def flush():
+        nonlocal foreign
+        if not block:
+            return
+        head = block[0]
+        if any(head.startswith(h) for h in _VG_ERR):
+            body = '\n'.join(block)
+            if head.startswith('Process terminating'):
+                pass
+            elif any(m in body for m in _VG_OURS):
+                own.append(body[:4000])
+            else:
+                foreign += 1
+    for line in text.splitlines():
+        if not line.startswith('=='):
+            continue
+        rest = line.split('== ', 1)[1] if '== ' in line else ''
+        if not rest.strip():
+            flush()
+            block = []
+        else:
+            block.append(rest)
+    flush()
+    return own, foreign
 
 
 def run_check(pid, tier, seed, root=None, jobs=16, keep=False):
@@ -186,7 +244,8 @@ def run_check(pid, tier, seed, root=None, jobs=16, keep=False):
                               if s.get('needs_build', True)))
         builds = {}
         for v in variants:
-            builds[v] = os.path.basename(build.get_build(v, root))
+            builds[v] = os.path.basename(build.get_build(
+                'mon' if v == 'vg' else v, root))
     except Exception as e:
         print('INCONCLUSIVE property=%s reason=build/plan failed: %s' % (
             pid, str(e)[-3000:]))
@@ -229,6 +288,15 @@ def run_check(pid, tier, seed, root=None, jobs=16, keep=False):
                 inconclusive.append('harness error in %s: %s' % (
                     label, res['harness_error'][-1500:]))
         nreports += len(o['sanitizer_reports'])
+        if o['spec'].get('variant') == 'vg':
+            events['valgrind:shards'] = events.get('valgrind:shards', 0) + 1
+            if res:
+                events['valgrind:evaluations'] = events.get(
+                    'valgrind:evaluations', 0) + res['evaluations']
+            notes['valgrind_errors_outside_BTrees'] = notes.get(
+                'valgrind_errors_outside_BTrees', 0) + o.get('vg_foreign', 0)
+            if not o.get('vg_logs') and not o.get('timeout'):
+                inconclusive.append('no valgrind log for %s' % label)
         if o.get('timeout'):
             inconclusive.append('watchdog fired for %s after %.0fs' % (
                 label, o['wall']))
@@ -237,7 +305,8 @@ def run_check(pid, tier, seed, root=None, jobs=16, keep=False):
                                         or res is None):
                 # the process died: signal, abort() from a C assert, sanitizer
                 violations.append(dict(
-                    mechanism='crash', rc=o['rc'],
+                    mechanism='crash' if o['rc'] else 'sanitizer-report',
+                    rc=o['rc'],
                     stderr=o['stderr'][-3000:],
                     reports=o['sanitizer_reports'][:2],
                     journal=o.get('journal', ''), shard=o['spec']))
